@@ -172,7 +172,15 @@ Combine(results) ==
 
 BatchCheck(s, keys, contrib, vgs, prs, sp) ==
   IF Len(vgs) # Len(prs) /\ ProofCountGuard(s) = "assert"
-  THEN [res |-> "panic", sp |-> sp, singles |-> <<>>]
+  THEN [res |-> "panic",
+        \* Marlin and PST13 combine every group (squeezing its challenges) BEFORE they compare the counts;
+        \* Sonic, IPA and the trait default compare first (learnt from the long histories of C11: the
+        \* verifier's sponge after an aborted call)
+        sp |-> IF s \in {"marlin", "pst13"}
+               THEN sp \o Flatten([g \in DOMAIN vgs |->
+                                     ChalEvents(s, [i \in DOMAIN vgs[g].clist |-> vgs[g].clist[i].lbound # NONE])])
+               ELSE sp,
+        singles |-> <<>>]
   ELSE LET r == RunGroups(s, keys, contrib, vgs, prs, sp, 1, <<>>)
        IN [res |-> Combine(r.res), sp |-> r.sp, singles |-> r.res]
 
